@@ -10,9 +10,11 @@
 package main
 
 import (
+	"context"
 	"encoding/hex"
 	"encoding/json"
 	"fmt"
+	"io"
 	"math"
 	"math/big"
 	"reflect"
@@ -29,9 +31,9 @@ import (
 // ------------------------------------------------------------------ type universe
 
 type Ty struct {
-	K   string `json:"k"`             // base | named | struct | ptr | slice | map | iface | any
+	K   string `json:"k"`             // base | named | struct | ptr | slice | map | iface | any | array | ncont
 	B   string `json:"b,omitempty"`   // base: Go name of the basic kind
-	N   int    `json:"n,omitempty"`   // named / struct / iface: id
+	N   int    `json:"n,omitempty"`   // named / struct / iface / ncont: id; array: length
 	E   *Ty    `json:"e,omitempty"`   // ptr / slice element, map value
 	Key *Ty    `json:"key,omitempty"` // map key
 }
@@ -136,10 +138,17 @@ func ifaceOf(n int) (reflect.Type, bool) {
 	return nil, false
 }
 
+// Holder is the state type of the black-box companion (a graph interrupted and resumed)
+type Holder struct {
+	V any
+	M map[string]any
+}
+
 var fixedStructs = []struct {
 	rt  reflect.Type
 	reg bool
-}{{reflect.TypeOf(Empty{}), true}, {reflect.TypeOf(Node{}), true}, {reflect.TypeOf(Unreg{}), false}, {reflect.TypeOf(Rec{}), true}}
+}{{reflect.TypeOf(Empty{}), true}, {reflect.TypeOf(Node{}), true}, {reflect.TypeOf(Unreg{}), false}, {reflect.TypeOf(Rec{}), true},
+	{reflect.TypeOf(Holder{}), true}}
 
 // container types registered under a name (so that they may be element types)
 var regContainers = []struct {
@@ -149,6 +158,28 @@ var regContainers = []struct {
 	{"c12_ints", &Ty{K: "slice", E: &Ty{K: "base", B: "int"}}},
 	{"c12_strmap", &Ty{K: "map", Key: &Ty{K: "base", B: "string"}, E: &Ty{K: "base", B: "string"}}},
 }
+
+// arrays, and defined container types (fixed family; 0..2 registered)
+type NSl []int
+type NMp map[string]NInt
+type NAr [2]string
+type USl []string
+type UMp map[string]int
+
+var namedConts = []struct {
+	rt    reflect.Type
+	under *Ty
+	reg   bool
+}{
+	{reflect.TypeOf(NSl(nil)), &Ty{K: "slice", E: &Ty{K: "base", B: "int"}}, true},
+	{reflect.TypeOf(NMp(nil)), &Ty{K: "map", Key: &Ty{K: "base", B: "string"}, E: &Ty{K: "named", N: 0}}, true},
+	{reflect.TypeOf(NAr{}), &Ty{K: "array", N: 2, E: &Ty{K: "base", B: "string"}}, true},
+	{reflect.TypeOf(USl(nil)), &Ty{K: "slice", E: &Ty{K: "base", B: "string"}}, false},
+	{reflect.TypeOf(UMp(nil)), &Ty{K: "map", Key: &Ty{K: "base", B: "string"}, E: &Ty{K: "base", B: "int"}}, false},
+}
+
+// registered container types of the extension that may be element types
+var extElems = []*Ty{{K: "array", N: 2, E: &Ty{K: "base", B: "int"}}, {K: "ncont", N: 0}, {K: "ncont", N: 1}, {K: "ncont", N: 2}}
 
 func must(err error) {
 	if err != nil {
@@ -169,8 +200,13 @@ func init() {
 	must(compose.RegisterSerializableType[Empty]("c12_s1000"))
 	must(compose.RegisterSerializableType[*Node]("c12_s1001")) // pointers are stripped by the registration
 	must(compose.RegisterSerializableType[Rec]("c12_s1003"))
+	must(compose.RegisterSerializableType[Holder]("c12_s1004"))
 	must(compose.RegisterSerializableType[[]int]("c12_ints"))
 	must(compose.RegisterSerializableType[map[string]string]("c12_strmap"))
+	must(compose.RegisterSerializableType[NSl]("c12_nsl"))
+	must(compose.RegisterSerializableType[NMp]("c12_nmp"))
+	must(compose.RegisterSerializableType[NAr]("c12_nar"))
+	must(compose.RegisterSerializableType[[2]int]("c12_arr2"))
 }
 
 type Field struct {
@@ -297,6 +333,19 @@ func (w *world) goType(t *Ty) (reflect.Type, error) {
 		}
 	case "any":
 		return anyType, nil
+	case "array":
+		et, err := w.goType(t.E)
+		if err != nil {
+			return nil, err
+		}
+		if t.N < 0 || t.N > 8 {
+			return nil, fmt.Errorf("array length %d", t.N)
+		}
+		return reflect.ArrayOf(t.N, et), nil
+	case "ncont":
+		if t.N >= 0 && t.N < len(namedConts) {
+			return namedConts[t.N].rt, nil
+		}
 	}
 	return nil, fmt.Errorf("bad type descriptor %+v", *t)
 }
@@ -307,15 +356,21 @@ func (w *world) tyOf(rt reflect.Type) (*Ty, bool) {
 	case reflect.Ptr:
 		e, ok := w.tyOf(rt.Elem())
 		return &Ty{K: "ptr", E: e}, ok
+	case reflect.Array:
+		if rt.Name() != "" {
+			return ncontOf(rt)
+		}
+		e, ok := w.tyOf(rt.Elem())
+		return &Ty{K: "array", N: rt.Len(), E: e}, ok
 	case reflect.Slice:
 		if rt.Name() != "" {
-			return nil, false
+			return ncontOf(rt)
 		}
 		e, ok := w.tyOf(rt.Elem())
 		return &Ty{K: "slice", E: e}, ok
 	case reflect.Map:
 		if rt.Name() != "" {
-			return nil, false
+			return ncontOf(rt)
 		}
 		k, ok1 := w.tyOf(rt.Key())
 		e, ok2 := w.tyOf(rt.Elem())
@@ -353,6 +408,68 @@ func (w *world) tyOf(rt reflect.Type) (*Ty, bool) {
 	return nil, false
 }
 
+func ncontOf(rt reflect.Type) (*Ty, bool) {
+	for i, nc := range namedConts {
+		if nc.rt == rt {
+			return &Ty{K: "ncont", N: i}, true
+		}
+	}
+	return nil, false
+}
+
+// ext: the type lies outside Base/Universe.v (a pointer to an interface type); struct types
+// are judged by their declarations (caseUsesExt)
+func (t *Ty) ext() bool {
+	switch t.K {
+	case "ncont":
+		return namedConts[t.N].under.ext()
+	case "ptr":
+		return t.E.K == "iface" || t.E.K == "any" || t.E.ext()
+	case "slice", "array":
+		return t.E.ext()
+	case "map":
+		return t.Key.ext() || t.E.ext() || t.Key.K != "base" && t.Key.K != "named"
+	}
+	return false
+}
+
+func (v *V) usesExt() bool {
+	if v == nil {
+		return false
+	}
+	if v.DT != nil && v.DT.ext() {
+		return true
+	}
+	for _, x := range v.F {
+		if x.usesExt() {
+			return true
+		}
+	}
+	for _, x := range v.E {
+		if x.usesExt() {
+			return true
+		}
+	}
+	for _, kv := range v.KV {
+		if kv[0].usesExt() || kv[1].usesExt() {
+			return true
+		}
+	}
+	return v.P.usesExt() || v.DV.usesExt()
+}
+
+// caseUsesExt: some type of the case is outside the model's universe
+func caseUsesExt(c *Case) bool {
+	for _, d := range c.Structs {
+		for _, f := range d.Fields {
+			if f.T.ext() {
+				return true
+			}
+		}
+	}
+	return c.T != nil && (c.T.ext() || c.V.usesExt())
+}
+
 func (t *Ty) coq() string {
 	switch t.K {
 	case "base":
@@ -370,6 +487,10 @@ func (t *Ty) coq() string {
 		return "(TMap " + t.Key.coq() + " " + t.E.coq() + ")"
 	case "iface":
 		return fmt.Sprintf("(TIface %d%%N)", t.N)
+	case "array":
+		return fmt.Sprintf("(TArray %d%%nat %s)", t.N, t.E.coq())
+	case "ncont":
+		return fmt.Sprintf("(TDef %d%%N %s)", t.N, namedConts[t.N].under.coq())
 	}
 	return "TAny"
 }
@@ -390,6 +511,10 @@ func (t *Ty) String() string {
 		return "map[" + t.Key.String() + "]" + t.E.String()
 	case "iface":
 		return fmt.Sprintf("E%d", t.N)
+	case "array":
+		return fmt.Sprintf("[%d]%s", t.N, t.E.String())
+	case "ncont":
+		return fmt.Sprintf("C%d", t.N)
 	}
 	return "any"
 }
@@ -425,6 +550,23 @@ func (w *world) build(t *Ty, v *V) (rv reflect.Value, err error) {
 	}
 	rv = reflect.New(rt).Elem()
 	switch t.K {
+	case "ncont":
+		uv, e := w.build(namedConts[t.N].under, v)
+		if e != nil {
+			return rv, e
+		}
+		rv.Set(uv.Convert(rt))
+	case "array":
+		if len(v.E) != t.N {
+			return rv, fmt.Errorf("array %s needs %d elements", t, t.N)
+		}
+		for i, x := range v.E {
+			ev, e := w.build(t.E, x)
+			if e != nil {
+				return rv, e
+			}
+			rv.Index(i).Set(ev)
+		}
 	case "base", "named":
 		if v.L == nil {
 			return rv, fmt.Errorf("missing literal for %s", t)
@@ -646,6 +788,20 @@ func (w *world) coqVal(rv reflect.Value) (string, bool) {
 		return fmt.Sprintf("(VBase BString (LStr %s))", lib.CoqStr("<outside the universe: "+rv.Type().String()+">")), false
 	}
 	switch t.K {
+	case "ncont":
+		u := namedConts[t.N].under
+		ut, _ := w.goType(u)
+		s, ok := w.coqVal(rv.Convert(ut))
+		return fmt.Sprintf("(VDef %d%%N %s)", t.N, s), ok
+	case "array":
+		items := make([]string, rv.Len())
+		all := true
+		for i := range items {
+			s, ok := w.coqVal(rv.Index(i))
+			all = all && ok
+			items[i] = s
+		}
+		return "(VArray " + t.E.coq() + " " + lib.CoqList(items) + ")", all
 	case "base":
 		l, _ := litCoq(rv)
 		return "(VBase " + baseCoq[t.B] + " " + l + ")", true
@@ -738,14 +894,55 @@ func jsonCoerce(s string) string {
 	return b.String()
 }
 
+// relaxations of equiv, each used only to recognise one known finding
+type eqMode int
+
+const (
+	eqExact    eqMode = iota
+	eqCoerce          // F-C12c: string values modulo jsonCoerce
+	eqRetype          // F-C12g: an unregistered defined container type may come back as its unnamed type
+	eqPtrIface        // F-C12h: what a pointer to an interface points to is not compared
+	eqMapKey          // F-C12j: maps whose key type is not of basic kind are not compared
+)
+
+func unregisteredDefinedContainer(t reflect.Type) bool {
+	for _, nc := range namedConts {
+		if nc.rt == t {
+			return !nc.reg
+		}
+	}
+	return false
+}
+
 // equiv: deeply equal, identical types, nil and empty containers identified.
-// coerce: compare string values modulo jsonCoerce (to recognise finding F-C12c only).
-func equiv(a, b reflect.Value, coerce bool) bool {
+func equiv(a, b reflect.Value, mode eqMode) bool {
 	if a.Type() != b.Type() {
+		if mode == eqRetype && unregisteredDefinedContainer(a.Type()) && a.Type().ConvertibleTo(b.Type()) &&
+			b.Type().Name() == "" && a.Kind() == b.Kind() {
+			return equiv(a.Convert(b.Type()), b, mode)
+		}
+		if mode == eqRetype && a.Kind() == reflect.Ptr && b.Kind() == reflect.Ptr {
+			if a.IsNil() || b.IsNil() {
+				return false // a nil pointer keeps its full type or fails
+			}
+			return equiv(a.Elem(), b.Elem(), mode)
+		}
 		return false
 	}
+	coerce := mode
 	switch a.Kind() {
 	case reflect.Ptr:
+		if mode == eqPtrIface && !a.IsNil() {
+			// a pointer chain ending in an interface type: b holds the generic JSON value, or
+			// is nil (at whatever depth) if the JSON of what the interface held was null
+			base := a.Type()
+			for base.Kind() == reflect.Ptr {
+				base = base.Elem()
+			}
+			if base.Kind() == reflect.Interface && (b.IsNil() || a.Type().Elem().Kind() == reflect.Interface) {
+				return true
+			}
+		}
 		if a.IsNil() || b.IsNil() {
 			return a.IsNil() == b.IsNil()
 		}
@@ -765,7 +962,7 @@ func equiv(a, b reflect.Value, coerce bool) bool {
 			}
 		}
 		return true
-	case reflect.Slice:
+	case reflect.Slice, reflect.Array:
 		if a.Len() != b.Len() {
 			return false
 		}
@@ -776,6 +973,11 @@ func equiv(a, b reflect.Value, coerce bool) bool {
 		}
 		return true
 	case reflect.Map:
+		if mode == eqMapKey {
+			if _, basic := kindBase[a.Type().Key().Kind()]; !basic {
+				return a.IsNil() == b.IsNil() || a.Len() == 0
+			}
+		}
 		if a.Len() != b.Len() {
 			return false
 		}
@@ -798,7 +1000,7 @@ func equiv(a, b reflect.Value, coerce bool) bool {
 	case reflect.Complex64, reflect.Complex128:
 		return a.Complex() == b.Complex()
 	case reflect.String:
-		if coerce {
+		if mode == eqCoerce {
 			return jsonCoerce(a.String()) == b.String()
 		}
 		return a.String() == b.String()
@@ -811,6 +1013,8 @@ func equiv(a, b reflect.Value, coerce bool) bool {
 type Case struct {
 	Structs   []SDecl  `json:"structs,omitempty"`
 	TopNil    bool     `json:"topnil,omitempty"` // Marshal(nil)
+	Probe     string   `json:"probe,omitempty"`  // registry probe: "dup-key" | "dup-type" (GenericRegister must refuse)
+	BB        int      `json:"bb,omitempty"`     // black-box companion: 1 = Pregel graph, 2 = DAG graph, 3 = DAG fan-in, 4..6 = the same through Stream (see runBB)
 	T         *Ty      `json:"t,omitempty"`
 	V         *V       `json:"v,omitempty"`
 	Malformed []string `json:"malformed,omitempty"` // why the value is not in the supported universe
@@ -828,6 +1032,7 @@ type stats struct {
 	ptrDepth, maxNest, nodes     int
 	nilPtr, innerNil, iface      bool
 	containers, structs, nilCont bool
+	arrays, defConts             bool
 }
 
 func (w *world) stat(t *Ty, v *V, depth int, st *stats) {
@@ -836,6 +1041,16 @@ func (w *world) stat(t *Ty, v *V, depth int, st *stats) {
 		st.maxNest = depth
 	}
 	switch t.K {
+	case "ncont":
+		st.nodes--
+		st.defConts = true
+		w.stat(namedConts[t.N].under, v, depth, st)
+	case "array":
+		st.containers = true
+		st.arrays = true
+		for _, x := range v.E {
+			w.stat(t.E, x, depth+1, st)
+		}
 	case "ptr":
 		d := 0
 		tt, vv := t, v
@@ -898,7 +1113,7 @@ func hasInvalidUTF8Value(rv reflect.Value) bool {
 				return true
 			}
 		}
-	case reflect.Slice:
+	case reflect.Slice, reflect.Array:
 		for i := 0; i < rv.Len(); i++ {
 			if hasInvalidUTF8Value(rv.Index(i)) {
 				return true
@@ -960,6 +1175,12 @@ func coqFixed() string {
 	for _, c := range regContainers {
 		regx = append(regx, lib.CoqPair(lib.CoqStr(c.name), c.t.coq()))
 	}
+	regx = append(regx, lib.CoqPair(lib.CoqStr("c12_arr2"), extElems[0].coq()))
+	for i, nc := range namedConts {
+		if nc.reg {
+			regx = append(regx, lib.CoqPair(lib.CoqStr(fmt.Sprintf("c12_nc%d", i)), (&Ty{K: "ncont", N: i}).coq()))
+		}
+	}
 	for _, d := range w.decls {
 		r, e := declCoq(d)
 		if r != "" {
@@ -973,7 +1194,166 @@ func coqFixed() string {
 		"  Case (ckpt_registry ++ regx0 ++ rx)%list (ckpt_env ++ ex ++ env0)%list w v o.\n"
 }
 
+type memStore struct{ m map[string][]byte }
+
+func (s *memStore) Get(_ context.Context, id string) ([]byte, bool, error) {
+	b, ok := s.m[id]
+	return b, ok, nil
+}
+func (s *memStore) Set(_ context.Context, id string, b []byte) error {
+	s.m[id] = b
+	return nil
+}
+
+// runBB: the black-box companion.  The value becomes part of the state of a real graph
+// (START -> a -> b -> END, state *Holder) and of the input pending for node b; the run is
+// interrupted before b (checkpoint written to a store), resumed from the store, and the
+// state handed to the StateModifier, the input node b receives and the final output are
+// compared with what was there before the interrupt.
+// Returns the restored state (what the model is compared with) and the other restored copies.
+func runBB(mode int, val any) (state any, copies []any, bytes int, phase string, err error) {
+	ctx := context.Background()
+	stream := mode > 3 // modes 4..6: the same graphs run through Stream (the checkpoint is
+	// converted from / restored to streams: convertCheckPoint / restoreCheckPoint)
+	if stream {
+		mode -= 3
+	}
+	// (node b's output type differs from its input type, so that the input and output stream
+	// converters of a node are not interchangeable)
+	g := compose.NewGraph[map[string]any, *Holder](compose.WithGenLocalState(func(ctx context.Context) *Holder {
+		return &Holder{}
+	}))
+	var bInput map[string]any
+	if err = g.AddLambdaNode("a", compose.InvokableLambda(func(ctx context.Context, in map[string]any) (map[string]any, error) {
+		e := compose.ProcessState[*Holder](ctx, func(_ context.Context, h *Holder) error {
+			h.V = val
+			h.M = map[string]any{"v": val}
+			return nil
+		})
+		return map[string]any{"v": val, "x": in["x"]}, e
+	})); err != nil {
+		return nil, nil, 0, "build", err
+	}
+	if err = g.AddLambdaNode("b", compose.InvokableLambda(func(ctx context.Context, in map[string]any) (*Holder, error) {
+		bInput = in
+		return &Holder{V: in["v"], M: in}, nil
+	})); err != nil {
+		return nil, nil, 0, "build", err
+	}
+	edges := [][2]string{{compose.START, "a"}, {"a", "b"}, {"b", compose.END}}
+	st := &memStore{m: map[string][]byte{}}
+	opts := []compose.GraphCompileOption{compose.WithCheckPointStore(st)}
+	switch mode {
+	case 1:
+		opts = append(opts, compose.WithInterruptBeforeNodes([]string{"b"}))
+	case 2:
+		opts = append(opts, compose.WithInterruptBeforeNodes([]string{"b"}), compose.WithNodeTriggerMode(compose.AllPredecessor))
+	default:
+		// mode 3: fan-in in a DAG.  START -> a -> b, START -> p -> q -> b; the run is interrupted
+		// after p: the channel of b then holds a's output (waiting for q) - the value is restored
+		// as a channel value, not as a pending input
+		for _, k := range []string{"p", "q"} {
+			k := k
+			if err = g.AddLambdaNode(k, compose.InvokableLambda(func(ctx context.Context, in map[string]any) (map[string]any, error) {
+				return map[string]any{k: "done"}, nil
+			})); err != nil {
+				return nil, nil, 0, "build", err
+			}
+		}
+		edges = append(edges, [2]string{compose.START, "p"}, [2]string{"p", "q"}, [2]string{"q", "b"})
+		opts = append(opts, compose.WithInterruptAfterNodes([]string{"p"}), compose.WithNodeTriggerMode(compose.AllPredecessor))
+	}
+	for _, e := range edges {
+		if err = g.AddEdge(e[0], e[1]); err != nil {
+			return nil, nil, 0, "build", err
+		}
+	}
+	r, err := g.Compile(ctx, opts...)
+	if err != nil {
+		return nil, nil, 0, "build", err
+	}
+	call := func(in map[string]any, opts ...compose.Option) (*Holder, error) {
+		if !stream {
+			return r.Invoke(ctx, in, opts...)
+		}
+		sr, err := r.Stream(ctx, in, opts...)
+		if err != nil {
+			return nil, err
+		}
+		defer sr.Close()
+		var out *Holder
+		for {
+			chunk, err := sr.Recv()
+			if err == io.EOF {
+				return out, nil
+			}
+			if err != nil {
+				return nil, err
+			}
+			if out != nil {
+				return nil, fmt.Errorf("more than one chunk")
+			}
+			out = chunk
+		}
+	}
+	_, err = call(map[string]any{"x": "in"}, compose.WithCheckPointID("cp"))
+	if err == nil {
+		return nil, nil, 0, "build", fmt.Errorf("the run was not interrupted")
+	}
+	if _, ok := compose.ExtractInterruptInfo(err); !ok {
+		return nil, nil, 0, "interrupt", err // the checkpoint could not be written
+	}
+	bytes = len(st.m["cp"])
+	out, err := call(map[string]any{"x": "ignored"}, compose.WithCheckPointID("cp"),
+		compose.WithStateModifier(func(_ context.Context, _ compose.NodePath, s any) error {
+			state = s
+			return nil
+		}))
+	if err != nil {
+		return nil, nil, bytes, "resume", err
+	}
+	if bInput == nil || out == nil || bInput["x"] != "in" || out.M["x"] != "in" {
+		return state, nil, bytes, "resume", fmt.Errorf("node b did not receive the pending input: %v / %v", bInput, out)
+	}
+	return state, []any{bInput["v"], out.V}, bytes, "", nil
+}
+
+type probeFresh int
+
+// runProbe: the theorems assume registry names and types are unique because GenericRegister
+// refuses a second registration of a key or of a type; check that it does.
+func runProbe(c *Case) (res lib.Result) {
+	var err error
+	p := lib.Recover(func() {
+		switch c.Probe {
+		case "dup-key":
+			err = compose.RegisterSerializableType[probeFresh]("c12_n1") // the key of NStr, a type never registered
+		case "dup-type":
+			err = compose.RegisterSerializableType[*NStr]("c12_probe_fresh") // NStr is registered as c12_n1
+		default:
+			panic("unknown probe " + c.Probe)
+		}
+	})
+	o := Obs{Class: "enc-error"}
+	switch {
+	case p != nil:
+		o = Obs{Class: "panic", Msg: fmt.Sprint(p)}
+		res.Oracle, res.Sig = "registration panicked: "+o.Msg, "panic"
+	case err == nil:
+		o = Obs{Class: "ok-different", Msg: "a duplicate registration was accepted"}
+		res.Oracle, res.Sig = "GenericRegister accepted a second registration ("+c.Probe+")", "registry-duplicate"
+	default:
+		o.Msg = err.Error()
+	}
+	res.Obs = o
+	res.Tags = []string{"class:" + o.Class, "probe:" + c.Probe, "malformed:registry-probe"}
+	return
+}
+
 func runCase(c *Case) (res lib.Result) {
+	if c.Probe != "" {
+		return runProbe(c)
+	}
 	w, err := newWorld(c.Structs)
 	if err != nil {
 		res.Obs = Obs{Class: "bad-case", Msg: err.Error()}
@@ -1005,8 +1385,28 @@ func runCase(c *Case) (res lib.Result) {
 	// ---- the implementation
 	var o Obs
 	var out any
-	viaCP := !c.TopNil && rv.Type() == reflect.PointerTo(ckptTypes["checkpoint"])
+	viaCP := !c.TopNil && c.BB == 0 && rv.Type() == reflect.PointerTo(ckptTypes["checkpoint"])
+	var bbCopies []any
+	if c.BB != 0 && !c.TopNil {
+		// the model is asked about the state record: &Holder{V: val, M: {"v": val}}
+		rv = reflect.ValueOf(&Holder{V: in, M: map[string]any{"v": in}})
+	}
 	p := lib.Recover(func() {
+		if c.BB != 0 && !c.TopNil {
+			state, copies, n, phase, err := runBB(c.BB, in)
+			o.Bytes = n
+			switch {
+			case err != nil && phase == "interrupt":
+				o = Obs{Class: "enc-error", Msg: err.Error()}
+			case err != nil && phase == "resume":
+				o = Obs{Class: "dec-error", Msg: err.Error(), Bytes: n}
+			case err != nil:
+				panic("black-box harness: " + err.Error())
+			default:
+				out, bbCopies, o.Class = state, copies, "ok"
+			}
+			return
+		}
 		if viaCP {
 			// a *checkpoint goes through checkPointer.set / get and a store, as in a run
 			got, n, setErr, getErr := compose.VerifC12CheckpointSetGet(in)
@@ -1058,10 +1458,17 @@ func runCase(c *Case) (res lib.Result) {
 			s, renderable = w.coqVal(ov)
 			o.Val = s
 			obsCoq = "(OOk " + s + ")"
-			if !c.TopNil && equiv(rv, ov, false) {
+			if !c.TopNil && equiv(rv, ov, eqExact) {
 				o.Class = "ok-equal"
 			} else {
 				o.Class = "ok-different"
+			}
+			for _, cp := range bbCopies {
+				// the pending input of node b and the final output carry the value too
+				if (cp == nil) != (in == nil) || cp != nil && !equiv(reflect.ValueOf(in), reflect.ValueOf(cp), eqExact) {
+					o.Class = "ok-different"
+					o.Msg = "the value restored as pending input / output differs"
+				}
 			}
 		}
 	case "enc-error":
@@ -1079,9 +1486,22 @@ func runCase(c *Case) (res lib.Result) {
 		res.Oracle, res.Sig = "serialiser panicked: "+o.Msg, "panic"
 	case o.Class == "ok-different":
 		res.Oracle, res.Sig = "decoded value differs from the encoded one (type "+o.Type+")", "ok-different"
-		if !c.TopNil && out != nil && hasInvalidUTF8Value(rv) && equiv(rv, reflect.ValueOf(out), true) {
-			res.Oracle = "string value with invalid UTF-8 came back with U+FFFD substituted"
-			res.Sig = "invalid-utf8-coerced"
+		if !c.TopNil && out != nil {
+			ov := reflect.ValueOf(out)
+			switch {
+			case hasInvalidUTF8Value(rv) && equiv(rv, ov, eqCoerce):
+				res.Oracle = "string value with invalid UTF-8 came back with U+FFFD substituted"
+				res.Sig = "invalid-utf8-coerced"
+			case equiv(rv, ov, eqRetype):
+				res.Oracle = "value of an unregistered defined container type held in an interface came back with the unnamed type"
+				res.Sig = "defined-container-retyped"
+			case equiv(rv, ov, eqPtrIface):
+				res.Oracle = "the value a pointer to an interface points to came back as a generic JSON value"
+				res.Sig = "ptr-to-interface-untyped"
+			case equiv(rv, ov, eqMapKey):
+				res.Oracle = "keys of a map whose key type is an interface / pointer type came back as generic JSON values or collapsed"
+				res.Sig = "map-key-untyped"
+			}
 		}
 	case supported && o.Class != "ok-equal":
 		res.Oracle, res.Sig = "supported value was rejected: "+o.Class+": "+o.Msg, "error-on-supported"
@@ -1095,7 +1515,8 @@ func runCase(c *Case) (res lib.Result) {
 		inCoq, inOK = w.coqVal(rv)
 		w.stat(c.T, c.V, 0, &st)
 	}
-	if inOK {
+	ext := caseUsesExt(c)
+	if inOK && !ext {
 		regx, env := w.coqEnv()
 		res.CoqTerm = lib.CoqApp("mk", regx, env, "true", inCoq, obsCoq)
 	}
@@ -1103,6 +1524,14 @@ func runCase(c *Case) (res lib.Result) {
 	res.Tags = []string{"class:" + o.Class, fmt.Sprintf("ptrdepth:%d", st.ptrDepth), fmt.Sprintf("nest:%d", st.maxNest)}
 	if viaCP {
 		res.Tags = append(res.Tags, "via:checkpointer")
+	}
+	if c.BB != 0 {
+		res.Tags = append(res.Tags, fmt.Sprintf("via:interrupt-resume-%d", c.BB))
+	}
+	if ext {
+		res.Tags = append(res.Tags, "universe:go-only")
+	} else {
+		res.Tags = append(res.Tags, "universe:model")
 	}
 	if c.TopNil {
 		res.Tags = append(res.Tags, "top:nil")
@@ -1125,7 +1554,7 @@ func runCase(c *Case) (res lib.Result) {
 		on   bool
 		name string
 	}{{st.nilPtr, "nilptr"}, {st.innerNil, "innernil"}, {st.iface, "iface"}, {st.containers, "container"},
-		{st.nilCont, "nilcontainer"}, {st.structs, "struct"}} {
+		{st.nilCont, "nilcontainer"}, {st.structs, "struct"}, {st.arrays, "array"}, {st.defConts, "definedcontainer"}} {
 		if f.on {
 			res.Tags = append(res.Tags, "has:"+f.name)
 		}
@@ -1148,6 +1577,7 @@ type gen struct {
 	allowBad  bool   // this case belongs to the malformed stream
 	badKind   string // the one kind of malformation this case may contain (so that they do not mask each other)
 	forceBad  bool   // the next literal of a fitting kind is the malformed one
+	extOK     bool   // the case may use arrays / defined container types
 	budget    int    // remaining value nodes
 	maxDepth  int
 }
@@ -1161,7 +1591,8 @@ func (g *gen) want(kind string, num, den int) bool {
 }
 
 var badKinds = []string{"unregistered-named", "unregistered-named", "complex", "unregistered-container-elem",
-	"unregistered-iface-elem", "unregistered-struct", "unregistered-struct", "invalid-utf8", "invalid-utf8", "non-finite-float"}
+	"unregistered-iface-elem", "unregistered-struct", "unregistered-struct", "invalid-utf8", "invalid-utf8", "non-finite-float",
+	"unregistered-defined-container", "ptr-to-iface", "non-basic-key"}
 
 var commonBases = []string{"int", "string", "bool", "float64", "int64", "uint8", "int32", "uint64", "float32", "uint", "int8",
 	"int16", "uint16", "uint32", "uintptr"}
@@ -1218,6 +1649,9 @@ func (g *gen) elemType(depth int) *Ty {
 		t = g.structType(depth - 1)
 	case x < 17:
 		t = regContainers[r.Intn(len(regContainers))].t
+		if g.extOK && r.Chance(1, 2) {
+			t = extElems[r.Intn(len(extElems))]
+		}
 	case x < 18 && g.want("unregistered-container-elem", 1, 1), x < 8 && g.want("unregistered-container-elem", 1, 2):
 		g.bad("unregistered-container-elem")
 		if r.Chance(1, 2) {
@@ -1300,6 +1734,13 @@ func (g *gen) anyType(depth int, ifaceOK bool) *Ty {
 	switch x := r.Intn(24); {
 	case x < 6:
 		t = g.basicType()
+	case x >= 3 && x <= 6 && g.extOK:
+		// an array, or a registered defined container type
+		if r.Chance(1, 2) {
+			t = &Ty{K: "array", N: r.Intn(4), E: g.elemType(depth - 1)}
+		} else {
+			t = &Ty{K: "ncont", N: r.Intn(3)}
+		}
 	case x < 10:
 		t = g.structType(depth - 1)
 	case x < 14:
@@ -1323,6 +1764,11 @@ func (g *gen) anyType(depth int, ifaceOK bool) *Ty {
 func isRegContainer(t *Ty) bool {
 	for _, c := range regContainers {
 		if c.t.String() == t.String() {
+			return true
+		}
+	}
+	for _, c := range extElems {
+		if c.String() == t.String() {
 			return true
 		}
 	}
@@ -1525,6 +1971,15 @@ func (g *gen) value(t *Ty, depth int) *V {
 	r := g.r
 	g.budget--
 	switch t.K {
+	case "ncont":
+		g.budget++
+		return g.value(namedConts[t.N].under, depth)
+	case "array":
+		v := &V{E: []*V{}}
+		for n := 0; n < t.N; n++ {
+			v.E = append(v.E, g.value(t.E, depth-1))
+		}
+		return v
 	case "base", "named":
 		return &V{L: g.lit(baseOfTy(t), false)}
 	case "struct":
@@ -1539,7 +1994,7 @@ func (g *gen) value(t *Ty, depth int) *V {
 			for b.K == "ptr" {
 				b = b.E
 			}
-			if (b.K == "slice" || b.K == "map") && !isRegContainer(b) {
+			if (b.K == "slice" || b.K == "map" || b.K == "array" || b.K == "ncont") && !isRegContainer(b) {
 				// the encoder looks the pointer-stripped type up in the registry: an
 				// unregistered container type below a nil pointer is rejected (loudly)
 				g.bad("nil-ptr-to-unregistered-container")
@@ -1563,10 +2018,19 @@ func (g *gen) value(t *Ty, depth int) *V {
 		v := &V{KV: [][2]*V{}}
 		seen := map[string]bool{}
 		for n := g.count(3); n > 0; n-- {
-			k := &V{L: g.lit(baseOfTy(t.Key), true)}
+			var k *V
+			switch t.Key.K {
+			case "any":
+				kt := &Ty{K: "base", B: r.Pick([]string{"int", "string", "int", "uint8", "float64", "bool"})}
+				k = &V{DT: kt, DV: &V{L: g.lit(kt.B, true)}}
+			case "ptr":
+				k = &V{P: &V{L: g.lit(baseOfTy(t.Key.E), true)}}
+			default:
+				k = &V{L: g.lit(baseOfTy(t.Key), true)}
+			}
 			kb, _ := json.Marshal(k)
 			ks := string(kb)
-			if k.L.F != nil { // +0 and -0 are one key
+			if k.L != nil && k.L.F != nil { // +0 and -0 are one key
 				if f, _ := floatOfBits(baseOfTy(t.Key) == "float32", *k.L.F); f == 0 {
 					ks = "zero"
 				}
@@ -1655,6 +2119,18 @@ func (g *gen) badLeaf() *Ty {
 			return &Ty{K: "named", N: 1}
 		}
 		return str
+	case "unregistered-defined-container":
+		g.bad("unregistered-defined-container")
+		return &Ty{K: "ncont", N: 3 + r.Intn(2)}
+	case "ptr-to-iface":
+		g.bad("ptr-to-iface")
+		return &Ty{K: "ptr", E: &Ty{K: "any"}}
+	case "non-basic-key":
+		g.bad("non-basic-key")
+		if r.Chance(1, 3) {
+			return &Ty{K: "map", Key: &Ty{K: "ptr", E: &Ty{K: "base", B: "int"}}, E: g.basicType()}
+		}
+		return &Ty{K: "map", Key: &Ty{K: "any"}, E: g.basicType()}
 	default: // non-finite-float
 		return []*Ty{{K: "base", B: "float64"}, {K: "base", B: "float32"}, {K: "named", N: 2}, {K: "named", N: 6}}[r.Intn(4)]
 	}
@@ -1664,7 +2140,10 @@ func (g *gen) badLeaf() *Ty {
 func (g *gen) wrap(t *Ty, v *V) (*Ty, *V) {
 	r := g.r
 	concrete := t.K != "iface" && t.K != "any"
-	elemOK := t.K != "slice" && t.K != "map" || isRegContainer(t) // may be an element type as it is
+	elemOK := t.K != "slice" && t.K != "map" && t.K != "array" && t.K != "ncont" || isRegContainer(t) // may be an element type as it is
+	if t.K == "ptr" && (t.E.K == "any" || t.E.K == "iface") {
+		elemOK = false // the encoder looks up the pointer-stripped element type: an interface type, fine, but keep it simple
+	}
 	str := &Ty{K: "base", B: "string"}
 	key := func() *V { return &V{L: g.lit("string", true)} }
 	switch x := r.Intn(8); {
@@ -1734,11 +2213,15 @@ func genCase(r *lib.Rng, tier string, i int) *Case {
 		g.maxDepth, g.budget = 6, 90
 	}
 	g.allowBad = i%5 == 3 // the malformed stream
+	g.extOK = i%4 == 1    // every 4th case may use arrays / defined container types
 	if g.allowBad {
 		g.badKind = r.Pick(badKinds)
 	}
 	if i%97 == 50 {
 		return &Case{TopNil: true, Malformed: []string{"top-level-nil"}}
+	}
+	if i%193 == 7 {
+		return &Case{Probe: r.Pick([]string{"dup-key", "dup-type"}), Malformed: []string{"registry-probe"}}
 	}
 	depth := 1 + r.Intn(g.maxDepth)
 	var t *Ty
@@ -1768,12 +2251,26 @@ func genCase(r *lib.Rng, tier string, i int) *Case {
 	default:
 		t = g.anyType(depth, false)
 	}
+	if g.extOK && r.Chance(1, 3) {
+		// an array / a registered defined container at top level or directly behind pointers
+		if r.Chance(1, 2) {
+			t = &Ty{K: "array", N: r.Intn(4), E: g.elemType(depth - 1)}
+		} else {
+			t = &Ty{K: "ncont", N: r.Intn(3)}
+		}
+		for n := ptrCount(r); n > 0; n-- {
+			t = &Ty{K: "ptr", E: t}
+		}
+	}
 	v := g.value(t, depth)
 	c := &Case{Structs: g.structs, T: t, V: v}
 	for m := range g.malformed {
 		c.Malformed = append(c.Malformed, m)
 	}
 	sort.Strings(c.Malformed)
+	if len(c.Malformed) == 0 && i%6 == 2 {
+		c.BB = 1 + (i/6)%6 // through a real graph: interrupt, store, resume
+	}
 	return c
 }
 
